@@ -561,7 +561,7 @@ def run_property(pid, spec, tier, seed, only=None, jobs=0):
         for i in inconclusive:
             log("INCONCLUSIVE property=%s %s" % (pid, i))
         wall = time.time() - t0
-        if not only and pid != "DBG":
+        if not only and pid != "DBG" and not os.environ.get("VERIF_NO_EVIDENCE"):
             ev = {
                 "property_id": pid, "tier": tier, "seed": seed, "level": spec.get("level", "model_checking"),
                 "coverage": {
